@@ -465,9 +465,9 @@ func (e *Exec) atLoopHead(s *State, b *ssa.BasicBlock, lr loopRef, depth int) {
 	}
 	h.cutLoops = append(h.cutLoops, cutLoop{Head: b, Pos: len(h.calls), Names: lnames})
 	if h.iterMark == nil {
-		h.iterMark = map[*ssa.BasicBlock]int{}
+		h.iterMark = map[*ssa.BasicBlock]iterMark{}
 	}
-	h.iterMark[b] = len(h.calls)
+	h.iterMark[b] = iterMark{Pos: len(h.calls), Cuts: len(h.cutLoops)}
 	ef := e.loopEffectsOf(b)
 	e.loopFrameCheck(s, b, lr.idx, "entry")
 	entryAlloc := e.cur(h, "$alloc", []string{"Ref"}, "Bool")
